@@ -24,7 +24,7 @@ def sim_cases():
     ops = [
         g.op_apply(limits=True), g.op_apply(limits=True), g.op_apply(limits=True),
         g.run, g.run, g.run, g.adv_lim, g.adv_lim, g.adv_lim, g.adv,
-        g.scan, g.scan, g.scan, g.work, g.feed,
+        g.scan, g.scan, g.scan, g.work, g.feed, g.scanrace, g.scanrace,
         g.worker_ops[0], g.worker_ops[2], g.worker_ops[4], g.hterm, g.tick, g.op_map(), g.op_imap(),
     ]
     return g.history(cfg, ops, max_ops=60, min_ops=12)
@@ -43,4 +43,4 @@ EXPLORE = {'sim': (sim_cases(), execute_sim), 'real': (rp.c05_cases(), rp.execut
 def run(ctx):
     ctx.explore('sim', sim_cases(), execute_sim, n=ctx.pick(250, 25000))
     ctx.explore('real', rp.c05_cases(), rp.execute_c05, n=ctx.pick(2, 30),
-                shrink_budget=6)
+                shrink_budget=6, reexecute_confirm=2)
